@@ -40,7 +40,7 @@ def _stacked_name(main: FuncInfo) -> str:
     raise AnalysisError("cli.main: binding from StackedPickle.load not found")
 
 
-def check_partition(repo: Repo, rep: Report):
+def check_partition(repo: Repo, rep: Report, max_n: int = 3):
     main = repo.func("fickling.cli.main")
     arms = cli_arms(main)
     arm = arms["inject"]
@@ -49,8 +49,8 @@ def check_partition(repo: Repo, rep: Report):
     module_consts = {k: ast.literal_eval(v[0]) for k, v in main.module.assigns.items() if len(v) == 1 and isinstance(v[0], ast.Constant)}
     evaluations = 0
     problems: Dict[str, str] = {}
-    for n in (1, 2, 3):
-        for t in range(0, n + 1):
+    for n in range(1, max_n + 1):
+        for t in range(0, n + 2):
             for run_last, replace in itertools.product((False, True), repeat=2):
                 log: List[tuple] = []
                 stop = Record("Stop", {"info": Record("info", {"name": "STOP"})})
@@ -182,16 +182,16 @@ def check_range_guard(repo: Repo, rep: Report):
         rep.ok("C18.range-guard", main.qualname, f"all {len(writes)} output writes of the --inject arm are dominated by the in-range edge of `{src(t.ast)}`", f"{main.file}:{t.line}")
 
 
-def check_var_threading(repo: Repo, rep: Report):
+def check_var_threading(repo: Repo, rep: Report, max_n: int = 3):
     main = repo.func("fickling.cli.main")
     arms = cli_arms(main)
     body = arms["decompile_body"]
     stacked = _stacked_name(main)
     file = main.file
-    counts = [3, 5, 7]
+    counts = [3, 5, 7, 11, 13, 17, 19][:max(3, max_n)]
     problems: Dict[str, str] = {}
     evaluations = 0
-    for n in (1, 2, 3):
+    for n in range(1, max_n + 1):
         for trace in (False, True):
             created: List[dict] = []
             printed: List[str] = []
@@ -309,6 +309,8 @@ def run(rep: Report, tier: str):
     rep.rule("C18.range-guard", "every output write is dominated by the in-range edge of the target test", 1)
     rep.rule("C18.var-threading", "decompile arm threads variable ids / distinct result names; counter and STOP discipline", 4)
     rep.assume("byte identity of the untouched pickles is C06's obligation (dump concatenates retained opcode bytes); validity of each emitted program is C05's")
-    check_partition(repo, rep)
+    max_n = 6 if tier == "thorough" else 3
+    rep.extra["max_stacked_pickles"] = max_n
+    check_partition(repo, rep, max_n)
     check_range_guard(repo, rep)
-    check_var_threading(repo, rep)
+    check_var_threading(repo, rep, max_n)
